@@ -76,12 +76,20 @@ def handleC15 (fields : List String) : Verdict :=
       else if ast.startsWith "BIG" then
         -- `BIG <constraints> <maxvar> <lists ok 0/1>`: summary computed by the harness for large n
         match (ast.splitOn " ").filter (· ≠ "") with
-        | [_, cnt, maxv, ok] =>
-          let o := if cnt.toNat? != some (6 * n - 2) then some s!"{cnt} constraints instead of {6 * n - 2}"
-            else if maxv.toNat? != some (n * n - 1) then some s!"largest variable index {maxv} instead of {n * n - 1}"
-            else if ok != "1" then some "a constraint list of the large instance is not a row / column / diagonal"
+        | [_, cnt, maxv, ok, sound, rowsE, colsE, dDown, dUp] =>
+          -- the model writes 6n - 2 constraints; another number of them is a difference from the model, not a failing
+          -- input.  What the property needs (n > 40 here): every constraint holds for every placement, every row and
+          -- column stands under an exactly-one, every diagonal of two or more cells stands whole under a constraint
+          let need := 2 * n - 3
+          let o := if (maxv.toNat?.getD 0) > n * n - 1 then some s!"a name v_{maxv} that is not a cell of the {n} x {n} board"
+            else if ok != "1" || sound != "1" then some "a constraint of the large instance does not hold for every placement (cells not on one line, a name that is not a cell, or exactly-one on something else than a whole row or column)"
+            else if rowsE.toNat? != some n then some s!"only {rowsE} of the {n} rows stand under an exactly-one constraint"
+            else if colsE.toNat? != some n then some s!"only {colsE} of the {n} columns stand under an exactly-one constraint"
+            else if (dDown.toNat?.getD 0) < need || (dUp.toNat?.getD 0) < need then
+              some s!"{dDown} / {dUp} of the {need} diagonals (of two or more cells) in each direction stand whole under a constraint: an attacking pair is not excluded"
             else none
-          { modelOk := true, oracle := o, nontrivial := true }
+          { modelOk := cnt.toNat? == some (6 * n - 2) && maxv.toNat? == some (n * n - 1), modelOut := s!"{6 * n - 2} constraints",
+            oracle := o, nontrivial := true }
         | _ => Verdict.badLine "bad BIG summary"
       else match parseFormula ast with
       | none => Verdict.badLine "unreadable tree"
